@@ -192,6 +192,8 @@ class Report(object):
             self.samples.append({"rule": rule, "obligation": what, "evidence": sample})
 
     def fail(self, rule, key, where, message, detail=None, witness=None):
+        if any(v.key == key for v in self.violations):
+            return  # one report per construct
         self.obligations += 1
         self.counts[rule] = self.counts.get(rule, 0) + 1
         self.violations.append(Violation(rule, key, where, message, detail, witness))
